@@ -1,16 +1,126 @@
-import PolyVerif.Model.Seqhash
+import PolyVerif.Lemmas.RotationSpec
 /-
 C12 — Circular sequences rotate to their lexicographically least rotation.
+
+This module holds the theorems about the SPECIFICATION (`Spec.leastRotation`, the arg-min over
+all rotations under byte-lexicographic order), for strings of EVERY length including the empty
+string: what "a rotation" is (same length, same letters in the same cyclic order), that the order
+is a total order so that "least" is meaningful and unique, that the arg-min is a rotation, is no
+greater than any rotation, and is constant on rotation classes — and that ANY function with the
+first two properties canonicalises (`canonical_of_least`), which is the property's "consequently"
+clause.  That the Booth-loop model of the Go code computes this arg-min is a separate module
+(Props/C12Booth.lean); nothing here depends on it.  Helper lemmas: Lemmas/RotationSpec.lean.
 -/
 namespace PolyVerif.Props.C12
 open PolyVerif PolyVerif.Spec
 
-theorem rotl_length (k : Nat) (s : Str) : (rotl k s).length = s.length := by
-  simp [rotl]
-  have : k % s.length ≤ s.length ∨ s.length = 0 := by
-    by_cases h : s.length = 0
-    · right; exact h
-    · left; exact Nat.le_of_lt (Nat.mod_lt _ (Nat.pos_of_ne_zero h))
-  omega
+/-! ### what "a rotation of the input" means -/
+
+theorem rotl_length (k : Nat) (s : Str) : (rotl k s).length = s.length := Spec.rotl_length k s
+
+/-- same letters with the same multiplicities -/
+theorem rotl_perm (k : Nat) (s : Str) : (rotl k s).Perm s := Spec.rotl_perm k s
+
+/-- the laws of rotation: identity, full turn, composition, offsets count modulo the length -/
+theorem rotl_laws (s : Str) :
+    rotl 0 s = s ∧ rotl s.length s = s ∧ (∀ a b, rotl a (rotl b s) = rotl (a + b) s) ∧
+      (∀ k, rotl (k % s.length) s = rotl k s) ∧ (∀ k, rotl (s.length - k % s.length) (rotl k s) = s) :=
+  ⟨rotl_zero s, rotl_length_self s, fun a b => rotl_rotl a b s, fun k => rotl_mod k s, fun k => rotl_inv k s⟩
+
+/-- "same letters in the same cyclic order": `a` is a rotation of `b` iff `b` can be cut into two
+pieces `u ++ v` with `a = v ++ u` -/
+theorem isRotation_iff_cut (a b : Str) : IsRotation a b ↔ ∃ u v, b = u ++ v ∧ a = v ++ u := by
+  constructor
+  · rintro ⟨k, rfl⟩
+    exact ⟨b.take (k % b.length), b.drop (k % b.length), (List.take_append_drop _ _).symm, rfl⟩
+  · rintro ⟨u, v, rfl, rfl⟩
+    refine ⟨u.length, ?_⟩
+    rw [rotl_eq_rotate, List.rotate_append_length_eq]
+
+/-- being a rotation is an equivalence relation; related strings have the same length and are
+permutations of each other -/
+theorem isRotation_equiv : Equivalence IsRotation := isRotation_equivalence
+
+theorem isRotation_same_length {a b : Str} (h : IsRotation a b) : a.length = b.length := h.length_eq
+
+theorem isRotation_same_letters {a b : Str} (h : IsRotation a b) : a.Perm b := h.perm
+
+/-- the set of rotations of a rotation of `s` is the set of rotations of `s` -/
+theorem rotations_of_rotation (x : Str) (k : Nat) (s : Str) :
+    (IsRotation x (rotl k s) ↔ IsRotation x s) ∧ (x ∈ rotations (rotl k s) ↔ x ∈ rotations s) :=
+  ⟨isRotation_rotl_iff x k s, mem_rotations_rotl x k s⟩
+
+/-! ### the order is total, so "least" is meaningful and unique -/
+
+/-- `lexLe` is a total preorder, antisymmetric (hence a total order), `lexLt` is its strict part,
+and both coincide with the standard lexicographic order on `List Char` -/
+theorem lexLe_total_order :
+    (∀ a, lexLe a a = true) ∧
+    (∀ a b c, lexLe a b = true → lexLe b c = true → lexLe a c = true) ∧
+    (∀ a b, lexLe a b = true ∨ lexLe b a = true) ∧
+    (∀ a b, lexLe a b = true → lexLe b a = true → a = b) ∧
+    (∀ a b, lexLt a b = true ↔ lexLe a b = true ∧ lexLe b a = false) ∧
+    (∀ a b : Str, lexLt a b = true ↔ a < b) :=
+  ⟨lexLe_refl, fun _ _ _ => lexLe_trans, lexLe_total, fun _ _ => lexLe_antisymm,
+   fun _ _ => lexLt_iff_le_not_le, lexLt_iff_lt⟩
+
+/-- `lexMin` is the binary minimum of that order -/
+theorem lexMin_is_min (a b : Str) :
+    (lexMin a b = a ∨ lexMin a b = b) ∧ lexLe (lexMin a b) a = true ∧ lexLe (lexMin a b) b = true ∧
+      lexMin a b = lexMin b a :=
+  ⟨lexMin_eq_or a b, lexMin_le_left a b, lexMin_le_right a b, lexMin_comm a b⟩
+
+/-! ### the arg-min specification -/
+
+/-- the least rotation is a rotation of the input, at an offset below the length -/
+theorem least_is_rotation (s : Str) : ∃ k, k < max 1 s.length ∧ leastRotation s = rotl k s :=
+  (leastRotation_isRotation s).exists_lt
+
+theorem least_same_length (s : Str) : (leastRotation s).length = s.length := leastRotation_length s
+
+theorem least_same_letters (s : Str) : (leastRotation s).Perm s := (leastRotation_isRotation s).perm
+
+/-- …no greater than ANY rotation (any offset, also beyond the length) -/
+theorem least_le_all (s : Str) : ∀ k, lexLe (leastRotation s) (rotl k s) = true :=
+  leastRotation_le_rotl s
+
+/-- these two properties determine it -/
+theorem least_unique (s m : Str) (hrot : IsRotation m s) (hle : ∀ k, lexLe m (rotl k s) = true) :
+    m = leastRotation s := leastRotation_unique hrot hle
+
+/-- every rotation of a sequence is canonicalised to one and the same string -/
+theorem least_canonical (s : Str) (k : Nat) : leastRotation (rotl k s) = leastRotation s :=
+  leastRotation_rotl k s
+
+/-- two strings have the same canonical form exactly when they are rotations of each other -/
+theorem least_eq_iff_rotation (a b : Str) : leastRotation a = leastRotation b ↔ IsRotation a b :=
+  leastRotation_eq_iff
+
+/-- the property's "consequently": ANY function that returns a rotation of its input which is no
+greater than every rotation canonicalises rotation classes (and is in fact `leastRotation`) -/
+theorem canonical_of_least (f : Str → Str)
+    (h : ∀ s, IsRotation (f s) s ∧ ∀ k, lexLe (f s) (rotl k s) = true) :
+    ∀ s k, f (rotl k s) = f s := by
+  have hf : ∀ s, f s = leastRotation s := fun s => leastRotation_unique (h s).1 (h s).2
+  intro s k
+  rw [hf, hf, leastRotation_rotl]
+
+/-- the index form: `leastIndex s` is an offset below the length, its rotation is the least one,
+and no earlier offset gives the least rotation -/
+theorem least_index (s : Str) :
+    leastIndex s < max 1 s.length ∧ rotl (leastIndex s) s = leastRotation s ∧
+      ∀ j, j < leastIndex s → rotl j s ≠ leastRotation s := leastIndex_spec s
+
+/-! ### non-vacuity / sanity on literals (tests, not theorems) -/
+
+example : leastRotation "banana".toList = "abanan".toList := by decide
+example : leastIndex "banana".toList = 5 := by decide
+example : leastRotation "abab".toList = "abab".toList ∧ leastIndex "abab".toList = 0 := by decide
+example : leastRotation [] = [] := by decide
+example : IsRotation "nanaba".toList "banana".toList := ⟨2, by decide⟩
+example : lexLe "ab".toList "abc".toList = true ∧ lexLt "Z".toList "a".toList = true := by decide
+/-- the hypothesis of `canonical_of_least` is satisfiable (by `leastRotation` itself) -/
+example : ∀ s, IsRotation (leastRotation s) s ∧ ∀ k, lexLe (leastRotation s) (rotl k s) = true :=
+  fun s => ⟨leastRotation_isRotation s, leastRotation_le_rotl s⟩
 
 end PolyVerif.Props.C12
